@@ -3,6 +3,7 @@ package main
 import (
 	"fmt"
 	"math/rand"
+	"os"
 	"strconv"
 	"strings"
 	"sync"
@@ -17,6 +18,7 @@ import (
 // Sequential ops (differential against the model built from Gen.ClockUse):
 //   ue <hexname> / q <hexname>      originate; output = LTime seen on EventCh
 //   inue <ltime> / inq <ltime>      deliver an incoming user event / query with that time
+//   restart                         Shutdown and Create on the same snapshot file
 // Concurrent op (monitored only):
 //   conc ue|q <goroutines> <calls each> <seed>   → obs <tid>.<i>:<ltime>:<floor>,…
 
@@ -38,6 +40,11 @@ func c06Gen(rng *rand.Rand, tier string) []Case {
 			case 2, 3:
 				ops = append(ops, "q "+hexs(fmt.Sprintf("q%d", j)))
 			case 4:
+				if rng.Intn(4) == 0 && j > 0 {
+					ops = append(ops, "restart") // the clocks come back from the snapshot
+					nt = true
+					continue
+				}
 				cur += uint64(rng.Intn(50))
 				ops = append(ops, fmt.Sprintf("inue %d", cur))
 				nt = true
@@ -49,6 +56,9 @@ func c06Gen(rng *rand.Rand, tier string) []Case {
 		}
 		out = append(out, Case{ID: fmt.Sprintf("s%d", i), Ops: ops, Nontrivial: nt, Tags: []string{"sequential"}})
 	}
+	// the first message originated after a restart on the snapshot
+	out = append(out, Case{ID: "restart-then-originate", Ops: []string{"ue " + hexs("a"), "ue " + hexs("b"), "q " + hexs("x"), "restart", "ue " + hexs("c"), "q " + hexs("y"),
+		"inue 40", "inq 30", "restart", "ue " + hexs("d"), "q " + hexs("z")}, Nontrivial: true, Tags: []string{"sequential", "restart"}})
 	for i := 0; i < nConc; i++ {
 		kind := "ue"
 		if i%2 == 1 {
@@ -69,10 +79,17 @@ func c06Gen(rng *rand.Rand, tier string) []Case {
 }
 
 func c06Exec(ops []string) []string {
-	n, err := newTestNode(func(c *serf.Config) {
+	dir, derr := os.MkdirTemp("", "verif-c06-")
+	if derr != nil {
+		return make([]string, len(ops))
+	}
+	defer os.RemoveAll(dir)
+	mod := func(c *serf.Config) {
 		c.EventBuffer = 1 << 15
 		c.QueryBuffer = 1 << 15
-	})
+		c.SnapshotPath = dir + "/snap"
+	}
+	n, err := newTestNode(mod)
 	if err != nil {
 		outs := make([]string, len(ops))
 		for i := range outs {
@@ -80,7 +97,7 @@ func c06Exec(ops []string) []string {
 		}
 		return outs
 	}
-	defer n.Close()
+	defer func() { n.Close() }()
 	del := n.Conf.MemberlistConfig.Delegate
 	var outs []string
 	qid := uint32(1000)
@@ -126,6 +143,19 @@ func c06Exec(ops []string) []string {
 					Flags: 2 /* no-broadcast */, Timeout: time.Second, Name: "in"}))
 			}
 			n.drain(5 * time.Millisecond)
+			outs = append(outs, "ok")
+		case len(f) == 1 && f[0] == "restart":
+			// Shutdown (waits for the snapshotter to flush) and Create on the same snapshot file
+			n.drain(20 * time.Millisecond)
+			n.Close()
+			n, err = newTestNode(mod)
+			if err != nil {
+				for len(outs) < len(ops) {
+					outs = append(outs, nodeErr(err))
+				}
+				return outs
+			}
+			del = n.Conf.MemberlistConfig.Delegate
 			outs = append(outs, "ok")
 		case len(f) == 5 && f[0] == "conc":
 			g, _ := strconv.Atoi(f[2])
